@@ -29,6 +29,40 @@ JS_RESERVED_RUST_LEGAL = ["new", "delete", "class", "function", "default", "var"
                           "instanceof", "switch", "case", "this", "null", "arguments", "eval", "debugger", "package",
                           "interface", "implements", "private", "protected", "public", "void", "throw", "catch", "finally",
                           "undefined", "constructor", "prototype", "await2"]
+# every ECMAScript reserved word / strict-mode reserved word / contextual troublemaker
+JS_RESERVED_ALL = ["break", "case", "catch", "class", "const", "continue", "debugger", "default", "delete", "do", "else", "enum",
+                   "export", "extends", "false", "finally", "for", "function", "if", "import", "in", "instanceof", "new", "null",
+                   "return", "super", "switch", "this", "throw", "true", "try", "typeof", "var", "void", "while", "with", "yield",
+                   "let", "static", "implements", "interface", "package", "private", "protected", "public", "await", "arguments",
+                   "eval", "undefined"]
+RUST_KEYWORDS = {"as", "break", "const", "continue", "crate", "else", "enum", "extern", "false", "fn", "for", "if", "impl", "in",
+                 "let", "loop", "match", "mod", "move", "mut", "pub", "ref", "return", "self", "Self", "static", "struct", "super",
+                 "trait", "true", "type", "unsafe", "use", "where", "while", "async", "await", "dyn", "abstract", "become", "box",
+                 "do", "final", "macro", "override", "priv", "typeof", "unsized", "virtual", "yield", "try"}
+RUST_NOT_RAWABLE = {"self", "Self", "super", "crate"}
+
+
+def reserved_name_shapes(w):
+    """Rust identifiers whose derived TypeScript name may collapse to the reserved word w: the word itself (where Rust
+    allows it, raw where Rust needs that), and the usual keyword dodges (underscores before / after, capitalised)"""
+    out = [w + "_", "_" + w, "__" + w, w + "__", w.capitalize(), w.upper()]
+    if w not in RUST_KEYWORDS:
+        out.append(w)
+    elif w not in RUST_NOT_RAWABLE:
+        out.append("r#" + w)
+    return out
+
+
+def reserved_shapes_project():
+    src = [PC.PRELUDE]
+    k = 0
+    for w in JS_RESERVED_ALL:
+        for nm in reserved_name_shapes(w):
+            k += 1
+            src.append("#[tauri::command]\npub fn %s(%s: u8, other_%d: Option<String>) -> u8 { 0 }\n" % (nm, nm if nm.lower() == nm or nm.startswith("r#") else "x", k))
+    return "\n".join(src)
+
+
 CONVENTIONS = ["camelCase", "snake_case", "PascalCase", "SCREAMING_SNAKE_CASE", "kebab-case", "SCREAMING-KEBAB-CASE", "lowercase", "UPPERCASE"]
 
 
@@ -152,6 +186,7 @@ def run(tier, seed):
         projects.append(("types-mapped%d" % bi, {"src/lib.rs": tsrc}, {"type_mappings": {"N0": "string", "N1": "Date", "N2": "Record<string, unknown>"}}))
     # 6. reserved words, non-ASCII names, exotic syntax
     projects.append(("reserved", {"src/lib.rs": reserved_project()}, None))
+    projects.append(("reserved-shapes", {"src/lib.rs": reserved_shapes_project()}, None))
     # (event names with characters Tauri does not allow - newline, quotes - are outside C01's quantifier; C15 keeps them)
     exotic = [t for t in c15.EXOTIC_ITEMS if "app.emit(" not in t]
     projects.append(("exotic", {"src/lib.rs": rustgen.PRELUDE + "use validator::Validate;\n" + "\n".join(exotic) + "\n#[tauri::command]\npub fn anchor_all() {}\n"}, None))
@@ -159,6 +194,8 @@ def run(tier, seed):
     def work(job):
         (pid, files, cfg), mode = job
         b, res, texts = PC.run_project(d, "%s-%s" % (pid, mode), files, mode=mode, extra_cfg=cfg)
+        if res.status == "ok" and "commands.ts" not in texts:
+            raise C.ToolError("case project %s (%s) produced no bindings: the generated Rust source is not what was intended\n%s" % (pid, mode, (res.out + res.err)[-600:]))
         evs = syntax_events(b, texts, "%s/%s" % (pid, mode))
         return evs, res.status, pid, mode
     jobs = [(p, m) for p in projects for m in ("none", "zod")]
